@@ -244,6 +244,7 @@ func init() {
 			return tierN(tier, n+600, n+60000)
 		},
 		Run:               runC12,
+		RaceSliceCases:    6000,
 		NeedsBinary:       true,
 		CrashIsViolation:  true,
 		MinNonTrivial:     1000,
